@@ -52,11 +52,12 @@ class Context:
         self.t0 = time.time()
 
     # ------------------------------------------------------------------ engine access
-    def interp(self, types=None, no_inline=(), max_depth=None, expand=True, opaque_attrs=()):
+    def interp(self, types=None, no_inline=(), max_depth=None, expand=True, opaque_attrs=(), sticky_attrs=()):
         if max_depth is None:
             max_depth = 3 if self.tier == 'quick' else 5
         return Interp(self.prog, max_depth=max_depth, types=types, no_inline=no_inline,
-                      expansions=self.exp if expand else None, opaque_attrs=opaque_attrs)
+                      expansions=self.exp if expand else None, opaque_attrs=opaque_attrs,
+                      sticky_attrs=sticky_attrs)
 
     def func(self, short):
         fi = self.prog.func(short)
@@ -64,12 +65,12 @@ class Context:
         return fi
 
     def run(self, short_or_fi, args=None, types=None, no_inline=(), max_depth=None, expand=True,
-            self_name='self', typed_params=None, opaque_attrs=(), heap=None):
+            self_name='self', typed_params=None, opaque_attrs=(), heap=None, sticky_attrs=()):
         """Symbolically execute a function; returns (Result, Interp)."""
         fi = short_or_fi if isinstance(short_or_fi, FuncInfo) else self.func(short_or_fi)
         self.functions_analysed.add(fi.short)
         I = self.interp(types=types, no_inline=no_inline, max_depth=max_depth, expand=expand,
-                        opaque_attrs=opaque_attrs)
+                        opaque_attrs=opaque_attrs, sticky_attrs=sticky_attrs)
         for pname, cshort in (typed_params or {}).items():
             I.types[sym(pname).key] = self.prog.cls(cshort)
         for k, v in (heap or {}).items():
